@@ -601,6 +601,38 @@ impl Sim {
             .collect()
     }
 
+    /// hook messages name threads by their process-global id; rewrite them to run-local ordinals
+    /// so that a violation reads the same in the run that found it and in every replay
+    fn normalise(&self, text: &str) -> String {
+        let mut out = String::with_capacity(text.len());
+        let bytes = text.as_bytes();
+        let mut i = 0;
+        while i < bytes.len() {
+            let boundary = i == 0 || !(bytes[i - 1] as char).is_alphanumeric();
+            if bytes[i] == b't' && boundary {
+                let mut j = i + 1;
+                while j < bytes.len() && bytes[j].is_ascii_digit() {
+                    j += 1;
+                }
+                let ends = j == bytes.len() || !(bytes[j] as char).is_alphanumeric();
+                if j > i + 1 && ends {
+                    if let Ok(raw) = text[i + 1..j].parse::<u64>()
+                        && let Some(m) = self.threads.get(&raw)
+                    {
+                        out.push_str(&format!("task#{}", m.ordinal));
+                        i = j;
+                        continue;
+                    }
+                }
+            }
+            // copy one whole character
+            let ch_len = text[i..].chars().next().map(|c| c.len_utf8()).unwrap_or(1);
+            out.push_str(&text[i..i + ch_len]);
+            i += ch_len;
+        }
+        out
+    }
+
     fn live_threads(&self) -> u64 {
         self.threads
             .values()
@@ -1395,7 +1427,7 @@ pub fn run_once(make_rt: &dyn Fn() -> Runtime, src: Source, opts: &RunOptions) -
             Ok(st) => st,
             Err(e) => {
                 let text = panic_text(e);
-                let v = fault_violation(&text, "panic escaped run_n_steps");
+                let v = fault_violation(&s.normalise(&text), "panic escaped run_n_steps");
                 s.violate(&v.oracle.clone(), v.msg);
                 outcome = Some(Outcome::Fault);
                 break 'run;
@@ -1617,7 +1649,8 @@ pub fn run_once(make_rt: &dyn Fn() -> Runtime, src: Source, opts: &RunOptions) -
             }
         }
         if let Some(v) = fault {
-            sim.borrow_mut().violate(&v.oracle.clone(), v.msg);
+            let msg = sim.borrow().normalise(&v.msg);
+            sim.borrow_mut().violate(&v.oracle.clone(), msg);
             outcome = Some(Outcome::Fault);
             break 'run;
         }
@@ -1708,6 +1741,7 @@ pub fn run_once(make_rt: &dyn Fn() -> Runtime, src: Source, opts: &RunOptions) -
         outcome = Some(Outcome::Fault);
     }
     for msg in verif::violations() {
+        let msg = sim.borrow().normalise(&msg);
         let v = fault_violation(&msg, "hook");
         let v = if msg.starts_with("double-free") {
             Violation {
